@@ -256,7 +256,8 @@ Definition exec_stmt (c : ctx) (s : stmt) (labels : list str) (k : list frame) :
                             do _ <- set_mutable_binding self venv x fv false;; go t
                         end) (fun_decls body);;
              ret ec) k c
-            (fun ec => o_run self (KSeq body None :: KEnv c :: KYieldResume target None :: k) (CNormal None) ec)
+            (fun ec => o_run self (KSeq body (if strict_body && negb (c_strict c) then Some (VStr (S "use strict")) else None)
+                                   :: KEnv c :: KYieldResume target None :: k) (CNormal None) ec)
   end.
 
 (* labelled loops: collect the label set *)
